@@ -39,7 +39,19 @@ def votes_suite():
     return [{'name': 'votes', 'quick': '-n 400 -ops 70', 'thorough': '-n 3000 -ops 150', 'shards': {'quick': 2, 'thorough': 16}}]
 
 
+SIG_TB = [
+    'model: coq/Hub/SignerSet.v (CurrentSignerSet, ExternalSigners.Sort, PowerDiff as the rational test 20*sum > 2^32-1, CreateSignerSetTx, createSignerSetTxs) is hand-written; '
+    'tied to /repo by co-executing BeginBlocker sequences on the real keeper (CurrentSignerSet, GetLatestSignerSetTx, LatestSignerSetTxNonce)',
+    'inputs: bonded validators in staking order with LastValidatorPower, registered external addresses (C17). The float64 evaluation of PowerDiff is not modelled: it is argued equal to the rational test '
+    '(integers below 2^33 are exact, no integer lies within 0.25/(2^32-1) of the 5% boundary) and exercised by the correspondence.',
+]
+SIG_RULE = ('seeded sequences of 25-60 BeginBlocker calls over a pool of 1-40 validators (some without a key for the chain): all-equal powers, powers 1..5, one dominant validator (1e12 vs <=1e6), '
+            'near ties around the 5% boundary, random up to 2^30; nearly equal addresses; per step random bonding/unbonding and delegation changes. A case agrees when the current set, the latest set and the nonce match after every step.')
+
 PROPS = {
+    'C09': {'suites': [{'name': 'sigset', 'quick': '-n 400 -ops 25', 'thorough': '-n 3000 -ops 60', 'shards': {'quick': 2, 'thorough': 16}}],
+            'trusted_base': SIG_TB, 'rule': SIG_RULE,
+            'assumptions': ['powers are non-negative', 'registered external addresses are distinct (C17); the staking hook for unbonding heights is disabled in the code (lastUnbondingHeight stays 0)']},
     'C02': {'suites': votes_suite(), 'trusted_base': VOTES_TB, 'rule': VOTES_RULE,
             'assumptions': ['event nonces are >= 1 (ExternalEvent.Validate) and staking powers are non-negative (hypothesis wf_vop of the theorems)',
                             'LastTotalPower equals the sum of the bonded validators\' LastValidatorPower (cosmos-sdk staking invariant)']},
@@ -70,6 +82,9 @@ _HUB_NOTE = ('Trusted: Coq 8.16.1 kernel (vm_compute, no native_compute), extrac
 _VOTES_NOTE = ('Trusted: Coq kernel, extraction + driver, Go harness; the hand-written votes model is tied to /repo by co-execution on the real msg server/EndBlocker; '
                'staking, orchestrator registry and claim hash are inputs.')
 TEXT = {
+    'C09': {'technique': 'Coq algebraic lemmas (floor, sums, unique sorted permutation) + freshness characterisation + correspondence',
+            'level': 'Theorems for all validator sets: members = bonded validators with a key, in staking order; normalised power = floor(p*(2^32-1)/total) within one unit, sum <= 2^32-1; published order is a sorted permutation and the only one; nonce = previous+1; after BeginBlocker either the sorted current set was just published or the latest differs by at most 5% (rational test). Monitors on the implementation.',
+            'note': 'Trusted: Coq kernel, extraction + driver, Go harness; staking input and key registry are inputs; float evaluation of PowerDiff argued, not modelled.'},
     'C02': {'technique': 'Coq invariant + tally lemma by induction over vote histories + correspondence',
             'level': 'Theorems over all histories of claims, tallies and staking changes: every claim the tally applies has pairwise distinct voters holding, at tally time, at least 66% of total bonded power; the tally never panics; each recorded vote is attributed to a bonded validator resolved through the orchestrator registry or its own account. Monitors evaluate the same on the implementation.',
             'note': _VOTES_NOTE},
